@@ -210,7 +210,7 @@ def path_cases(tier):
                     yield {"kind": "path", "moves": list(mv), "scale": 1.0, "eps": eps, "hot": hot, "rev": not hot}   # hot profiles listed supply -> target: enthalpy descending
             yield {"kind": "path", "moves": list(mv), "scale": 1.0, "eps": 0.5, "hot": True, "rev": False}
             yield {"kind": "path", "moves": list(mv), "scale": 1.0, "eps": 0.5, "hot": False, "rev": True}
-    kinds = (0, 1, 2) if tier == "quick" else (0, 1, 2, 3)
+    kinds = (0, 1, 2)            # each long path costs up to ten failing refinement attempts (about 0.5 s): three move kinds only
     for n in ((10,) if tier == "quick" else (10, 11)):
         for mv in itertools.product(kinds, repeat=n):
             if any(a == b for a, b in zip(mv[:-1], mv[1:])):
@@ -340,6 +340,6 @@ SUBCHECKS = {
         rule="case = (polyline, eps, hot/cold); non-trivial = simplification removed an interior point or the refinement branch ran (>10 breakpoints)",
         cases=pw_cases, run=pw_run,
         bound=lambda t: ("{0..3}^n n<=6 x 3 eps x hot/cold + 5 families x {11,50} points x 4 eps + lattice paths with vertical steps and plateaus: all of <=5 moves from 6 (incl. a repeated sample), all corner-only paths of 10 moves from 3" if t == "quick"
-                         else "{0..3}^n n<=7 + families up to 500 points + lattice paths: all of <=6 moves from 6 (incl. a repeated sample), corner-only paths of 10-11 moves from 4"),
+                         else "{0..3}^n n<=7 + families up to 500 points + lattice paths: all of <=6 moves from 6 (incl. a repeated sample), corner-only paths of 10-11 moves from 3"),
     ),
 }
